@@ -25,7 +25,7 @@ import tempfile
 V = os.path.dirname(os.path.dirname(os.path.abspath(__file__)))
 REPO = os.environ.get("BNPSA_REPO", "/repo")
 TRANSFORMS = ["identity", "rename", "tempret", "ifflip", "nodoc", "compvars", "elseify", "elimtemps", "guardswap", "addassert", "kwreorder",
-              "cmpflip", "msgs", "typehints", "tuplelist", "lenzero", "literals"]
+              "cmpflip", "msgs", "typehints", "tuplelist", "lenzero", "literals", "ifexp2stmt", "methodorder"]
 SCOPES = (ast.FunctionDef, ast.AsyncFunctionDef, ast.Lambda, ast.ListComp, ast.SetComp, ast.DictComp, ast.GeneratorExp, ast.ClassDef)
 
 
@@ -470,6 +470,47 @@ class Literals(ast.NodeTransformer):
         return node
 
 
+class IfExp2Stmt(ast.NodeTransformer):
+    """`x = a if c else b` (x a plain local) -> `if c: x = a` / `else: x = b`"""
+
+    def _block(self, body):
+        out = []
+        for st in body:
+            st = self.visit(st)
+            if isinstance(st, ast.Assign) and len(st.targets) == 1 and isinstance(st.targets[0], ast.Name) and isinstance(st.value, ast.IfExp):
+                v = st.value
+                a = ast.Assign(targets=[ast.Name(id=st.targets[0].id, ctx=ast.Store())], value=v.body)
+                b = ast.Assign(targets=[ast.Name(id=st.targets[0].id, ctx=ast.Store())], value=v.orelse)
+                out.append(ast.If(test=v.test, body=[a], orelse=[b]))
+            else:
+                out.append(st)
+        return out
+
+    def generic_visit(self, node):
+        for f in ("body", "orelse", "finalbody"):
+            v = getattr(node, f, None)
+            if isinstance(v, list) and v and isinstance(v[0], ast.stmt):
+                setattr(node, f, self._block(v))
+        if isinstance(node, ast.Try):
+            for h in node.handlers:
+                h.body = self._block(h.body)
+        return node
+
+
+class MethodOrder(ast.NodeTransformer):
+    """the first undecorated method of every class is moved to the end of the class body (definition order of methods carries no meaning)"""
+
+    def visit_ClassDef(self, node):
+        self.generic_visit(node)
+        for i, st in enumerate(node.body):
+            if isinstance(st, ast.FunctionDef) and not st.decorator_list and st.name != "__init__":
+                used_later = any(isinstance(x, ast.Name) and x.id == st.name for later in node.body[i + 1:] if not isinstance(later, (ast.FunctionDef, ast.AsyncFunctionDef)) for x in ast.walk(later))
+                if not used_later and i < len(node.body) - 1:
+                    node.body.append(node.body.pop(i))
+                break
+        return node
+
+
 class NoDoc(ast.NodeTransformer):
     def visit_FunctionDef(self, node):
         self.generic_visit(node)
@@ -510,6 +551,10 @@ def transform_source(src: str, name: str) -> str:
         tree = LenZero().visit(tree)
     elif name == "literals":
         tree = Literals().visit(tree)
+    elif name == "ifexp2stmt":
+        tree = IfExp2Stmt().visit(tree)
+    elif name == "methodorder":
+        tree = MethodOrder().visit(tree)
     elif name == "guardswap":
         sys.path.insert(0, V)
         from bnpsa import normalize
